@@ -422,6 +422,83 @@ def s8(ctx, rep):
             "a delivered result carries no (or another) simulated time stamp than the time its event was due")
 
 
+DELAY_ROLES = {
+    # option of SimulatorConfig: (the one method of SimulatorBackend that reads it, the event whose time it goes into)
+    "delay_on_trial_result": ("_process_start_event", "OnTrialResultEvent"),
+    "delay_complete_after_final_report": ("_process_start_event", "CompleteEvent"),
+    "delay_complete_after_stop": ("_stop_or_pause_trial", "CompleteEvent"),
+    "delay_start": ("_schedule", "StartEvent"),
+    "delay_stop": ("_stop_or_pause_trial", "StopEvent"),
+}
+
+
+def delay_roles(ctx, rep, clause="S6"):
+    """each configured delay is charged to the event its name says, and to no other: the option is read in one method only, and
+    the time of the event pushed there for that kind of event depends on it"""
+    from ..engine import flows_into, deref
+    P = ctx.P
+    c = P.cls("SimulatorBackend")
+    cfgcls = P.cls("SimulatorConfig")
+    declared = {x.target.id for x in cfgcls.node.body if isinstance(x, ast.AnnAssign) and isinstance(x.target, ast.Name) and x.target.id.startswith("delay_")}
+    if declared != set(DELAY_ROLES):
+        raise AnchorError(f"SimulatorConfig declares the delays {sorted(declared)}, the role table knows {sorted(DELAY_ROLES)}")
+    for opt, (meth, event) in sorted(DELAY_ROLES.items()):
+        readers = sorted({m.name for m in c.methods.values() for x in walk_shallow(m.node, include_lambda=True)
+                          if isinstance(x, ast.Attribute) and x.attr == opt and isinstance(x.ctx, ast.Load)})
+        m = c.methods[meth]
+        ok = readers == [meth]
+        pushes = []
+        for x in walk_shallow(m.node):
+            if isinstance(x, ast.Call) and fn_name(x) == "push" and argn(x, 0) is not None:
+                ev = deref(m, argn(x, 0))
+                if isinstance(ev, ast.Call) and fn_name(ev) == event:
+                    pushes.append(x)
+        et = kwarg(pushes[0], "event_time", 1) if len(pushes) == 1 else None
+        others = [o for o in DELAY_ROLES if o != opt]
+        ok = ok and et is not None and bool(flows_into(m, et, lambda y, o=opt: isinstance(y, ast.Attribute) and y.attr == o)) and \
+            not any(flows_into(m, et, lambda y, o=o_: isinstance(y, ast.Attribute) and y.attr == o) for o_ in others if DELAY_ROLES[o_] != (meth, event))
+        rep.put(ok, clause, "agreement", f"SimulatorConfig.{opt} is charged to the {event} pushed by SimulatorBackend.{meth}, and only there", m,
+                pushes[0] if pushes else None, f"read in {readers}", f"`{opt}` is read in {readers or 'no method'} / the time of the {event} pushed by {meth} does not "
+                f"depend on it (or depends on another delay): with non-default delays a completion can overtake the trial's last results, or events fire at times the configuration does not say")
+
+
+def setstate_forwards(ctx, rep, clause="S3"):
+    """an un-pickled tabular backend is configured like the pickled one: every constructor argument of the simulator backend that
+    __getstate__ saves under its own name is handed back to the base constructor by __setstate__, from the state"""
+    from ..engine import dict_items, deref
+    P = ctx.P
+    c = P.cls("BlackboxRepositoryBackend")
+    gs, ss = c.methods.get("__getstate__"), c.methods.get("__setstate__")
+    if gs is None or ss is None:
+        raise AnchorError("BlackboxRepositoryBackend.__getstate__ / __setstate__ not found")
+    base = P.lookup_method(c, "__init__", after=c)
+    bparams = [p for p in base.params if p != "self"]
+    saved = set()
+    for x in walk_shallow(gs.node):
+        if isinstance(x, ast.Dict):
+            saved |= {k.value for k in x.keys if isinstance(k, ast.Constant) and isinstance(k.value, str)}
+    sup = [x for x in walk_shallow(ss.node) if isinstance(x, ast.Call) and fn_name(x) == "__init__" and isinstance(x.func, ast.Attribute)
+           and isinstance(x.func.value, ast.Call) and fn_name(x.func.value) == "super"]
+    if len(sup) != 1:
+        raise AnchorError("BlackboxRepositoryBackend.__setstate__: call of the base constructor not found")
+    sv = ss.params[1]
+    n = 0
+    for p_ in bparams:
+        if p_ not in saved:
+            continue
+        n += 1
+        v = kwarg(sup[0], p_)
+        if base.node.args.kwarg is not None and p_ == base.node.args.kwarg.arg:
+            stars = [k_.value for k_ in sup[0].keywords if k_.arg is None]
+            v = stars[0] if len(stars) == 1 else None
+        ok = v is not None and isinstance(deref(ss, v), ast.Subscript) and U(deref(ss, v).value) == sv and U(deref(ss, v).slice) in (repr(p_), f'"{p_}"')
+        rep.put(ok, clause, "agreement", f"BlackboxRepositoryBackend.__setstate__ hands the saved `{p_}` back to the base constructor", ss, sup[0], "",
+                f"`{p_}` is saved by __getstate__ but the base constructor is not given state['{p_}'] for it: after a save / load round trip the backend "
+                "runs with the default (another seed, checkpointing switched on, another resource attribute) - the restored experiment replays other table rows")
+    if n < 3:
+        raise AnchorError("BlackboxRepositoryBackend: fewer than three saved constructor arguments recognised")
+
+
 def run(ctx, rep, tier="quick"):
     s1(ctx, rep)
     s2(ctx, rep)
@@ -438,4 +515,6 @@ def run(ctx, rep, tier="quick"):
     s5b(ctx, rep)
     s7(ctx, rep)
     s8(ctx, rep)
+    delay_roles(ctx, rep)
+    setstate_forwards(ctx, rep)
     c02.event_dispatch(ctx, rep, "S6")
